@@ -13,7 +13,7 @@ import ast
 from ..model import dotted, unparse, norm, walk_no_nested
 from ..symeval import show
 from ..rulelib import Ctx, nodes_calling, reaching_defs, value_assigned, short, ValueNumbers
-from .c06 import rule_local_mutation
+from .c06 import rule_local_mutation, rule_replicas_total
 
 IMPURE = ('random', 'choice', 'shuffle', 'time', 'randint', 'uuid4', 'urandom', 'sample')
 
@@ -409,6 +409,7 @@ def run(check):
   if agg is not None:
     fns.append(agg)
   rule_pure(check, r_pu, fns)
+  rule_replicas_total(check, cx, check.rule('R-C05-replicas-total', 1, 'every node added to the ring owns replica_count entries: a node without entries is configured but never returned'))
 
 
 def rule_pure(check, r_pu, fns):
@@ -434,3 +435,6 @@ def rule_pure(check, r_pu, fns):
                    'key and the current membership' % (f.qualname, short(bad[0])))
     else:
       r_pu.ok('%s: no randomness, clock or state mutation' % f.qualname, f.loc())
+
+
+
